@@ -207,6 +207,40 @@ pub fn inputs(tier: &str, seed: u64, mut f: impl FnMut(&[u8], &str)) {
             }
         }
     }
+    // 3b. sliders far outside the playfield (coordinates up to +-131072): enormous perfect
+    // curves (arc needs >= 1000 sub-points -> Bezier fall-back), nearly collinear triples at
+    // large magnitude (ill-conditioned circumcircle: NaN / huge radius), long Beziers; alone,
+    // before and after ordinary sliders, as first and as later segments, in all four modes
+    for i in 0..80 * scale {
+        let mode = i % 4;
+        let mut lines: Vec<String> = vec!["osu file format v14".into(), "[General]".into(), format!("Mode: {}", mode), "[TimingPoints]".into(), "0,500,4,1,0,100,1,0".into(), "[HitObjects]".into()];
+        let n = r.range(1, 4);
+        let mut t = 1000;
+        for _ in 0..n {
+            let big = |r: &mut Rng| r.range(-131072, 131072);
+            let path = match r.below(6) {
+                0 => format!("P|{}:{}|{}:{}", big(&mut r), big(&mut r), big(&mut r), big(&mut r)),
+                1 => {
+                    // a, a + s*d, a + t*d + tiny perpendicular offset
+                    let (ax, ay) = (big(&mut r) / 2, big(&mut r) / 2);
+                    let (dx, dy) = (r.range(-3000, 3000), r.range(-3000, 3000));
+                    let (s1, s2) = (r.range(1, 10), r.range(11, 20));
+                    let (ex, ey) = (r.range(-2, 2), r.range(-2, 2));
+                    let lead = if r.chance(1, 2) { "L|10:10|" } else { "" };
+                    format!("{}P|{}:{}|{}:{}|{}:{}", lead, ax, ay, ax + s1 * dx, ay + s1 * dy, ax + s2 * dx + ex, ay + s2 * dy + ey)
+                }
+                2 => format!("P|100000:100000|100000:0"),
+                3 => format!("B|{}:{}|{}:{}|{}:{}|{}:{}", big(&mut r), big(&mut r), big(&mut r), big(&mut r), big(&mut r), big(&mut r), big(&mut r), big(&mut r)),
+                4 => format!("B|100:100|200:0|P|{}:{}|{}:{}", big(&mut r), big(&mut r), big(&mut r), big(&mut r)),
+                _ => format!("C|{}:{}|{}:{}|{}:{}", big(&mut r), big(&mut r), big(&mut r), big(&mut r), big(&mut r), big(&mut r)),
+            };
+            let len = *r.pick(&["", ",1", ",1,100", ",2,120000", ",3,0"]);
+            lines.push(format!("{},{},{},2,0,{}{}", r.range(0, 512), r.range(0, 384), t, path, len));
+            t += 700;
+        }
+        let text = lines.join("\n") + "\n";
+        f(text.as_bytes(), "large-sliders");
+    }
     // 4. BOM / UTF-16 variants incl. odd tails and truncated code units
     for i in 0..60 * scale {
         let o = Opts { level: 1, max_objects: 5, ..Opts::default() };
